@@ -251,7 +251,8 @@ func (r *renderer) expr(e Expr, min int) []Tok {
 		t := Tok{S: q, K: TStr}
 		if strings.ContainsAny(v.V, "\r\n") {
 			// multi-line text (manual ch.6): the line breaks written as such instead of escapes
-			// (the layout decides; not inside a block header, whose last line fixes the indentation of the block)
+			// (the layout decides; also inside a block header: its block is indented relative to the
+			// line the header STARTS on when the header's last line begins inside the text)
 			t.RawBreaks = strings.ReplaceAll(strings.ReplaceAll(q, "`LF`", "\n"), "`CR`", "\r")
 		}
 		return []Tok{t}
@@ -701,7 +702,7 @@ func Layout(lines []Line, pol *Policy) (string, LineMap) {
 				if t.Twin != "" && pol.pick(3, "ascii-twin") == 1 {
 					s = t.Twin
 				}
-				if t.RawBreaks != "" && !isHeader && pol.pick(2, "raw-linebreak") == 1 {
+				if t.RawBreaks != "" && pol.pick(2, "raw-linebreak") == 1 {
 					s = t.RawBreaks
 				}
 				if t.K == TID && pol.pick(8, "backtick-id") == 1 && backtickable(t.S) {
